@@ -544,7 +544,9 @@ def run_case(case):
             return res
         res.see("zero_gradient_checks")
     # ---- per-sample decomposition
-    if N % 2 == 0 and N >= 4 and loss != "td7_critic":
+    # (not for sac_loss: its next actions are sampled with per-position noise, so
+    # sub-batches see other noise than the full batch - found by the seed sweep)
+    if N % 2 == 0 and N >= 4 and loss not in ("td7_critic", "sac"):
         tot = 0.0
         for a in range(0, N, 2):
             sub = {k: (v[a:a + 2] if k in S.row_keys else v)
